@@ -4,14 +4,20 @@
 (* what the specification predicts for it: the declarative verdict, the type *)
 (* and index of every parameter and global, the output of the program when   *)
 (* it is accepted, the number of body orders the as-built resolver may use   *)
-(* and the set of first errors it may report over those orders (C19a).       *)
+(* and the set of first errors it may report over those orders (C19a); for    *)
+(* family "collect" the sites of the collected errors and the prediction that *)
+(* every parse reports the same one.                                           *)
 EXTENDS ResolverGen, Json
 
 CONSTANTS Family
 
-Slots == IF Family = "usage" THEN UsageSlots ELSE MultiSlots
-Opts(k, chosen) == IF Family = "usage" THEN SlotOpts(Slots[k], chosen) ELSE MultiOpts(Slots[k])
-Program(chosen) == IF Family = "usage" THEN UsageProgram(chosen) ELSE MultiProgram(chosen)
+Slots == CASE Family = "usage" -> UsageSlots [] Family = "multi" -> MultiSlots
+           [] Family = "frames" -> FramesSlots [] Family = "collect" -> CollectSlots
+Opts(k, chosen) == CASE Family = "usage" -> SlotOpts(Slots[k], chosen) [] Family = "multi" -> MultiOpts(Slots[k])
+                     [] Family = "frames" -> FramesOpts(Slots[k]) [] Family = "collect" -> CollectOpts(Slots[k], chosen)
+Program(chosen) == CASE Family = "usage" -> UsageProgram(chosen) [] Family = "multi" -> MultiProgram(chosen)
+                     [] Family = "frames" -> FramesProgram(chosen)
+                     [] Family = "collect" -> [funcs |-> <<>>, main |-> <<>>, sites |-> CollectSites(chosen)]
 
 \* prog is a state variable so that TLC holds the assembled program as an explicit value
 \* (an operator result would be re-assembled lazily at every access)
@@ -22,19 +28,29 @@ SetToSeq(S) == LET RECURSIVE go(_)
                    go(T) == IF T = {} THEN <<>> ELSE LET x == CHOOSE y \in T : TRUE IN <<x>> \o go(T \ {x})
                IN go(S)
 
-Case(p) ==
+\* ty, gorder and orders are bound by the caller (Emit) to explicit values: a LET definition would be
+\* re-evaluated at every reference
+CaseT(p, ty, gorder, orders) ==
   LET verdict == DeclVerdict(p)
-      ty      == DeclTypes(p)
-      gorder  == IdentityOrder(p)
       idx     == IndexesOf(p, ty, gorder)
       nodes   == SetToSeq(Nodes(p))
-      orders  == PossibleOrders(p, "any")
       errs    == {ObsError(RunWithOrder(p, o, gorder)) : o \in orders}
   IN [fam |-> Family, prog |-> p, verdict |-> verdict,
       types |-> [k \in 1..Len(nodes) |-> [f |-> nodes[k][1], i |-> nodes[k][2], t |-> ty[nodes[k]], x |-> idx[nodes[k]]]],
       out |-> IF verdict = "accept" THEN ExecOut(p, ty) ELSE <<>>,
+      omitted |-> IF verdict = "accept" THEN SetToSeq(OmittedKinds(p, ty)) ELSE <<>>,
       norders |-> Cardinality(orders),
       errs |-> SetToSeq(errs)]
+
+\* family "collect": the source is described by its sites; predicted are the verdict and that every parse
+\* reports the same error (distinct = 1); walks = the number of orders in which the parser's table of comma
+\* lists can be walked (non-trivial when > 1), first = the comma list that comes first in the text
+CollectCase(p) ==
+  LET cp == CommaPositions(p.sites)
+  IN [fam |-> "collect", lines |-> CLines, sites |-> p.sites, verdict |-> CollectVerdict(p.sites),
+      distinct |-> 1, walks |-> Cardinality(WalksOf(cp)),
+      first |-> IF cp = {} THEN <<0, 0>> ELSE CHOOSE m \in cp : \A x \in cp : m = x \/ PosLess("lex", m, x),
+      reports |-> Cardinality(ReportsOf("lex", cp))]
 
 Init == ch = <<>> /\ prog = <<>> /\ emitted = FALSE
 Build ==
@@ -46,7 +62,10 @@ Finish ==
   /\ prog' = Program(ch) /\ ch' = <<>> /\ UNCHANGED emitted
 Emit ==
   /\ prog # <<>> /\ ~emitted
-  /\ PrintT(ToJson(Case(prog)))
+  /\ IF Family = "collect"
+     THEN \E j \in {ToJson(CollectCase(prog))} : PrintT(j)
+     ELSE \E ty \in {DeclTypes(prog)}, gorder \in {IdentityOrder(prog)}, orders \in {PossibleOrders(prog, "any")} :
+            \E j \in {ToJson(CaseT(prog, ty, gorder, orders))} : PrintT(j)
   /\ emitted' = TRUE /\ UNCHANGED <<ch, prog>>
 Next == Build \/ Finish \/ Emit
 Spec == Init /\ [][Next]_vars
